@@ -47,6 +47,29 @@ let eval inp obs =
       | _ -> false) in
     { default_verdict with model_obs; spec_ok = Some (spec obs); model_spec_ok = spec model_obs;
       nontrivial = true }
+  | "QM" :: _mode :: rest ->
+    (* the set built through one of the constructors (Set/Build, ArrayToValidators, EqualWeightValidators,
+       Copy, Builder, rlp decode) from pairs with repeated ids and zero weights.
+       obs: <total> <quorum> <len> <whole set reaches quorum 0/1>  |  PANIC *)
+    let ops = pairs_of rest in
+    let rec range a b = if a >= b then [] else a :: range (a + 1) b in
+    let model_obs = (match build ops with
+      | None -> ["PANIC"]
+      | Some vs ->
+        let n = List.length (sorted_weights vs) in
+        let cops = List.map (fun i -> OpIdx (nat_of_int i)) (range 0 n) @ [OpHas] in
+        let (rs, _) = run_counter (new_counter vs) cops in
+        let reach = (match List.rev rs with RBool b :: _ -> tok_of_bool b | _ -> "?") in
+        [tok_of_n (total_weight vs); tok_of_n (quorum vs); string_of_int n; reach]) in
+    let w = spec_total ops in
+    let spec o = (match o with
+      | ["PANIC"] -> not (zle w max_total)
+      | [t; q; l; reach] ->
+        zle w max_total && t = tok_of_n w && l = string_of_int (List.length (eff_pairs ops))
+        && (ZA.sign (z_of_n w) = 0 || (q = tok_of_n (quorum_spec w) && reach = "1"))
+      | _ -> false) in
+    { default_verdict with model_obs; spec_ok = Some (spec obs); model_spec_ok = spec model_obs;
+      nontrivial = List.length ops > List.length (eff_pairs ops) }
   | "K" :: rest ->
     let groups = split_on ";" rest in
     let ops = pairs_of (List.hd groups) in
